@@ -107,6 +107,27 @@ def run(ctx):
         r2.ok("Save_Iter: __zOld = copies of the trial state")
     else:
         r2.fail(fs.qualname, "commit-copy", fs.file, fs.lineno, "Save_Iter", "Save_Iter does not commit a copy of the trial state")
+    # trial and committed containers never alias: assembly writes the trial container entry by entry, so a shared dict
+    # (or shared arrays) lets a Newton iterate overwrite the committed history
+    for name, f in sorted(sim.methods.items()):
+        if f.cls is not sim or name != f.node.name:
+            continue
+        for a, n, kind in self_stores(f):
+            if a not in (z, zold) or kind != "assign" or not isinstance(n, ast.Assign):
+                continue
+            other = zold if a == z else z
+            others = {other, other.replace("_InElastic", "")}
+            mentions = [x for x in ast.walk(n.value) if isinstance(x, ast.Attribute) and isinstance(x.value, ast.Name) and x.value.id == "self" and x.attr in others]
+            if not mentions:
+                continue
+            r2.instance(fn=f.qualname)
+            v = n.value
+            fresh = isinstance(v, ast.DictComp) and isinstance(v.value, ast.Call) and ((isinstance(v.value.func, ast.Attribute) and v.value.func.attr == "copy") or (dotted(v.value.func) or "") in ("copy.deepcopy", "np.array", "np.copy"))
+            fresh = fresh or (isinstance(v, ast.Call) and (dotted(v.func) or "") == "copy.deepcopy")
+            if fresh:
+                r2.ok(f"{f.name}: {norm_text(n)[:70]} (fresh container, copied arrays)")
+            else:
+                r2.fail(f.qualname, f"alias:{f.name}", f.file, n.lineno, f.name, f"`{norm_text(n)[:80]}` makes the trial and the committed state share their container / arrays: Construct_local_matrix_system then writes every Newton iterate into the committed history, which advances without Save_Iter")
     # who calls Integrate
     callers = []
     for f in repo.all_functions():
@@ -157,6 +178,7 @@ def run(ctx):
     condensation_rule(ctx, beh)
     evaluation_point_rule(ctx, beh)
     derivative_rules(ctx)
+    convergence_test_rule(ctx)
 
 
 def condensation_rule(ctx, beh):
@@ -453,3 +475,49 @@ def derivative_rules(ctx):
             rule.ok(f"{jid}  [{o['method']}]")
         else:
             rule.fail(f.qualname, jid, f.file, f.lineno, f.name, f"{jid} does NOT hold ({o['method']}; witness {o['witness']}): the hand-written derivative is not the derivative of its primitive, so the local Newton matrix / the algorithmic tangent is inconsistent with the residual / the returned stress")
+
+
+def convergence_test_rule(ctx):
+    """R19.9: every convergence test of the local iterations (a `< tolerance` comparison that ends a loop or defines
+    the converged mask) bounds the MAGNITUDE of the residual over the whole batch: the absolute value is taken before
+    the maximum (or a norm is used), so that points with a residual of either sign keep iterating."""
+    repo = ctx.repo
+    r = ctx.rule("R19.9", "convergence tests are two-sided over the batch: max(|r|) / norm(r) < tol, never |max(r)| or max(r)", min_instances=3)
+    mods = [repo.module("EasyFEA.Models.InElastic._behavior"), repo.module("EasyFEA.Models.InElastic._spectral"), repo.module("EasyFEA.Models.InElastic._materialpoint")]
+
+    def magnitude_first(e):
+        """e reduces |.|: max/amax/.max of an expression containing abs / norm, or a norm"""
+        if isinstance(e, ast.Call):
+            d = dotted(e.func) or ""
+            if d.endswith("linalg.norm") or d.split(".")[-1] in ("Norm", "__Norm", "_Behavior__Norm"):
+                return True
+            is_max = d in ("np.max", "np.amax", "max", "np.nanmax") or (isinstance(e.func, ast.Attribute) and e.func.attr in ("max", "amax") and not d.startswith("np."))
+            if is_max:
+                inner = e.args[0] if e.args and d in ("np.max", "np.amax", "max", "np.nanmax") else (e.func.value if isinstance(e.func, ast.Attribute) else None)
+                return inner is not None and any(isinstance(x, ast.Call) and ((dotted(x.func) or "") in ("np.abs", "np.absolute", "abs", "np.fabs") or (dotted(x.func) or "").endswith("linalg.norm")) for x in ast.walk(inner))
+            if d in ("np.abs", "np.absolute", "abs") and e.args:
+                # |reduction(...)|: the sign was lost after the reduction -> one-sided unless the inner part is itself two-sided
+                return magnitude_first(e.args[0])
+        return False
+
+    def reduces(e):
+        return any(isinstance(x, ast.Call) and ((dotted(x.func) or "") in ("np.max", "np.amax", "np.min", "np.sum", "np.mean") or (isinstance(x.func, ast.Attribute) and x.func.attr in ("max", "min", "sum", "mean") and not (dotted(x.func) or "").startswith("np."))) for x in ast.walk(e))
+
+    for mod in mods:
+        for f in repo.all_functions():
+            if f.module is not mod:
+                continue
+            for n in ast.walk(f.node):
+                if not (isinstance(n, ast.Compare) and len(n.ops) == 1 and isinstance(n.ops[0], (ast.Lt, ast.LtE))):
+                    continue
+                rhs = norm_text(n.comparators[0])
+                if "tol" not in rhs.lower():
+                    continue
+                lhs = n.left
+                if not (reduces(lhs) or magnitude_first(lhs)):
+                    continue
+                r.instance(fn=f.qualname)
+                if magnitude_first(lhs):
+                    r.ok(f"{f.qualname}: {norm_text(n)[:70]}")
+                else:
+                    r.fail(f.qualname, f"one-sided:{f.name}", f.file, n.lineno, f.name, f"`{norm_text(n)[:90]}` tests the signed extreme of the residual, not its magnitude over the batch: points whose residual has the other sign are declared converged and keep an out-of-balance state")
